@@ -38,6 +38,37 @@ def shadowed(rng, b):
     return b2
 
 
+def dotdot_case(rng):
+    """imports that climb out of the importing file's directory (`../lib/Gate`, `../../lib/Gate as G`), with decoy templates of
+    the same name where a path stripped of its `../` would land.  Returns (bundle with the climbing spelling, bundle with the
+    same files minus decoys where every import is a bare name found through one include directory)."""
+    gate = progen.CompGen(rng, name="Gate", size=4, nports=(1, 1), port_lens=(5,)).build()
+    decoy = progen.CompGen(rng, name="Gate", size=4, nports=(1, 1), port_lens=(7,)).build()
+    gtxt, dtxt = progen.render_comp(gate, rng), progen.render_comp(decoy, rng)
+    lib, proj, sub = rng.choice(["lib", "parts", "common"]), rng.choice(["proj", "design"]), rng.choice(["sub", "stage"])
+    st1, st2 = rng.choice(["", "*"]), rng.choice(["", "*"])
+    stage = "declare system Stage: p%s -> q\nimport %s as G\ncomponent u = G: p -> m%s\ncomponent v = G: m -> q\n"
+    top = "declare system Top:  -> \nimport %s, %s\ncomponent g = Gate: x%s -> y\ncomponent st = Stage: y -> z%s\n"
+    a = progen.Bundle()
+    a.texts["%s/Gate.comp" % lib] = gtxt
+    for where in ("%s/%s/Gate.comp" % (proj, lib), "%s/%s/%s/Gate.comp" % (proj, sub, lib), "inc/%s/Gate.comp" % lib, "inc/Gate.comp"):
+        if rng.random() < 0.75:
+            a.texts[where] = dtxt
+    a.texts["%s/%s/Stage.sys" % (proj, sub)] = stage % (st1, "../../%s/Gate" % lib, st2)
+    a.texts["%s/Top.sys" % proj] = top % ("../%s/Gate" % lib, "%s/Stage" % sub, st1, st2)
+    a.entry = "%s/Top" % proj
+    a.includes = ["inc"] if rng.random() < 0.6 else []
+    a.directed = True
+    b = progen.Bundle()
+    b.texts["%s/Gate.comp" % lib] = gtxt
+    b.texts["%s/%s/Stage.sys" % (proj, sub)] = stage % (st1, "Gate", st2)
+    b.texts["%s/Top.sys" % proj] = top % ("Gate", "%s/Stage" % sub, st1, st2)
+    b.entry = "%s/Top" % proj
+    b.includes = [lib]
+    b.directed = True
+    return a, b
+
+
 def run(st, tier, seed):
     res = Result("C02")
     res.rule = ("system generator: 1-4 instances per system over 2-3 generated component templates, signals bound to several ports by "
@@ -63,6 +94,23 @@ def run(st, tier, seed):
     bundles += exb
     compile_check.run_bundles(st, res, bundles, "C02", "system", must_accept=True)
     res.programs = len(bundles)
+    # directed: `../` imports (outside the model, whose paths have no `..`): judged by a second spelling of the same program
+    import impl
+    for k in range(6 if tier == "quick" else 150):
+        a, b2 = dotdot_case(rng)
+        ra, rb = impl.compile_bundle(a, "pil"), impl.compile_bundle(b2, "pil")
+        res.evaluations += 1
+        res.count("directed:dotdot-imports")
+        import re as _re
+        body = lambda r_: [[_re.sub(r"_Anon(\d+)", lambda m: "_Anon^%d" % (int(m.group(1)) - r_["anon_before"]), t) for t in l] for l in r_["lines"]] if r_["ok"] else None
+        if not rb["ok"]:
+            continue
+        if not ra["ok"] or body(ra) != body(rb):
+            res.violations.append({"what": "an import that climbs out of the importing file's directory (../…) does not resolve relative to that directory: "
+                                           + ("the program is rejected (%s)" % ra.get("stderr", "")[-160:] if not ra["ok"] else
+                                              "the specification differs from the one compiled with the same template found by name through an include directory"),
+                                   "input": {"files": a.texts, "entry": a.entry, "includes": a.includes}, "sig": "C02:dotdot-import",
+                                   "cmd": "pepper-compiler %s %s" % (a.entry, " ".join("-I " + i for i in a.includes))})
     # text level: the model of the .sys statement parsers (PepperModel/ParseSys.lean, theorems PepperProps/ParseSys.lean) against
     # the real pyparsing grammars and the real load_system loop, on generated lines (valid + malformed), on the .sys files of
     # the generated bundles and of the repository examples
